@@ -1,6 +1,6 @@
 # Rule-kind helpers over the fact base: site discovery, guards, dominance, provenance.
 import re, collections
-from .facts import Facts, Fn, fmt, short, is_log_or_derive
+from .facts import Facts, Fn, fmt, short, stable, is_log_or_derive
 
 GROW = {"insert", "push", "push_back", "push_front", "entry", "or_insert_with", "or_insert", "or_default", "extend", "append"}
 SHRINK = {"remove", "pop", "pop_front", "pop_back", "pop_first", "pop_last", "clear", "retain", "drain", "take", "swap_remove", "truncate", "remove_entry"}
@@ -106,12 +106,33 @@ class Tree:
                 yield Site(f, bb, k, s)
 
     def stores(self, adt, field, fn=None):
+        """stores to field `field` of ADT `adt`: direct (`x.field = v`) or through a reference taken to exactly that field (`let p = &mut x.field; *p = v`,
+        which is also what an inlined helper `fn h(p: &mut T)` looks like)"""
         for s in self.sites(fn):
             n = s.node
             if n["k"] == "assign" and n["place"]["proj"]:
                 last = n["place"]["proj"][-1]
                 if last["k"] == "field" and last.get("name") == field and (last.get("adt") or "").endswith(adt):
                     yield s
+                elif last["k"] == "deref" and len(n["place"]["proj"]) == 1:
+                    tgt = self._ref_target(s.fn, n["place"]["local"])
+                    if tgt is not None and tgt["proj"] and tgt["proj"][-1]["k"] == "field" and tgt["proj"][-1].get("name") == field and (tgt["proj"][-1].get("adt") or "").endswith(adt):
+                        yield s
+
+    def _ref_target(self, fn, local, depth=0):
+        """place a reference local points to, if it has a single definition chain `l = &[mut] place` / copies of such"""
+        for _ in range(8):
+            ds = fn.defs().get(local, [])
+            if len(ds) != 1 or ds[0][2]["k"] != "assign": return None
+            rv = ds[0][2]["rv"]
+            if rv["k"] in ("ref", "rawptr"):
+                pl = rv["place"]
+                # reborrow `&mut *q`: keep chasing
+                if len(pl["proj"]) == 1 and pl["proj"][0]["k"] == "deref": local = pl["local"]; continue
+                return pl
+            if rv["k"] in ("use", "cast") and rv["op"]["k"] in ("copy", "move") and not rv["op"]["place"]["proj"]: local = rv["op"]["place"]["local"]; continue
+            return None
+        return None
 
     def stores_like(self, pat, fn=None):
         """stores (assignments through a projection) whose target place, rendered as an origin expression, matches `pat`
@@ -172,7 +193,7 @@ class Tree:
         if cs is None: return o
         ups = self.stored(cs)[3]
         def sub(x):
-            if not isinstance(x, tuple): return x
+            if not isinstance(x, tuple) or not x: return x
             y = x
             if x[0] == "field":
                 base = strip(x[1])
@@ -182,7 +203,7 @@ class Tree:
         r = sub(o)
         # unwrap marker
         def un(x):
-            if not isinstance(x, tuple): return x
+            if not isinstance(x, tuple) or not x: return x
             if x[0] == "closure-upvar": return un(x[1])
             return tuple(un(z) if isinstance(z, tuple) else z for z in x)
         return un(r)
@@ -203,8 +224,13 @@ class Tree:
         o = strip(o)
         while isinstance(o, tuple):
             if o[0] == "field" and o[2] == field: return True
-            if o[0] == "call" and (method_of(o[1]) in ("deref", "deref_mut", "entry", "as_mut", "as_ref", "iter_mut", "iter", "values_mut") or "Deref" in o[1]) and o[2]:
+            if o[0] == "call" and (method_of(o[1]) in ("deref", "deref_mut", "entry", "as_mut", "as_ref", "iter_mut", "iter", "values_mut", "first_mut", "last_mut", "get_mut", "unwrap", "expect", "branch") or "Deref" in o[1]) and o[2]:
                 o = strip(o[2][0]); continue
+            if o[0] == "as": o = strip(o[1]); continue                      # enum downcast: (entry(..) as Vacant)
+            if o[0] == "field" and str(o[2]) in ("0", "1") and isinstance(strip(o[1]), tuple) and strip(o[1])[0] in ("as", "call"): o = strip(o[1]); continue
+            if o[0] == "phi":                                               # the same container reached over several paths
+                alts = [strip(x) for x in o[2]]
+                return bool(alts) and all(self.rooted_at_field(x, field) for x in alts)
             return False
         return False
 
@@ -390,7 +416,7 @@ def innermost_loop(fn, bb):
 def pos(site): return (site.bb, site.idx)
 
 
-def rel_edges(t, fn, lhs_pred, rhs_pred, rel):
+def _rel_edges_direct(t, fn, lhs_pred, rhs_pred, rel):
     """CFG edges of fn on which `lhs <rel> rhs` holds exactly (rel in Lt, Le, Gt, Ge, Eq, Ne), whatever way the test is written:
     either operand order, negated conditions, `!(a < b)` for `a >= b`, a comparison stored in a bool first. Yields (edge, branch)."""
     for br in t.branches(fn):
@@ -401,3 +427,119 @@ def rel_edges(t, fn, lhs_pred, rhs_pred, rel):
                 if o == rel: yield br["t_edge"], br
                 if NEGATE[o] == rel: yield br["f_edge"], br
                 break
+    # `cond.then(|| x)` / `cond.then_some(x)` tested with `if let Some(..)`: the Some edge means cond held (possibly merged with constant `None`s)
+    for br in t.branches(fn):
+        if br["kind"] != "discr": continue
+        on = strip(br["on"])
+        alts = [strip(x) for x in on[2]] if isinstance(on, tuple) and on[0] == "phi" else [on]
+        alts = [x for x in alts if not (isinstance(x, tuple) and x[0] == "aggr" and x[2] == "None")]
+        if not alts or not all(isinstance(x, tuple) and x[0] == "call" and method_of(x[1]) in ("then", "then_some") and "bool" in x[1] and x[2] for x in alts): continue
+        some_e = (br["bb"], br["targets"].get(1, br["otherwise"]))
+        good = True
+        for x in alts:
+            c = t.norm_cond(strip(x[2][0]))
+            neg = False
+            cc = strip(x[2][0])
+            while isinstance(cc, tuple) and cc[0] == "un" and cc[1] == "Not": neg = not neg; cc = cc[2]
+            c = t.norm_cond(cc)
+            if c[0] != "cmp": good = False; break
+            _, op, a, b = c
+            if neg: op = NEGATE[op]
+            hit = False
+            for (p_, q_, o) in ((a, b, op), (b, a, MIRROR[op])):
+                if lhs_pred(p_) and rhs_pred(q_) and o == rel: hit = True
+            if not hit: good = False; break
+        if good: yield some_e, br
+    # `match a.checked_sub(b) { Some(v) => .., None => .. }`: None edge means a < b, Some edge a >= b
+    for br in t.branches(fn):
+        if br["kind"] != "discr": continue
+        on = strip(br["on"])
+        if isinstance(on, tuple) and on[0] == "call" and method_of(on[1]) == "checked_sub" and len(on[2]) == 2:
+            a, b = on[2]
+            for (x, y, lt, ge) in ((a, b, "Lt", "Ge"), (b, a, "Gt", "Le")):
+                if lhs_pred(x) and rhs_pred(y):
+                    none_e = (br["bb"], br["targets"].get(0, br["otherwise"])); some_e = (br["bb"], br["targets"].get(1, br["otherwise"]))
+                    if rel == lt: yield none_e, br
+                    if rel == ge: yield some_e, br
+                    break
+
+
+
+
+def rel_edges(t, fn, lhs_pred, rhs_pred, rel):
+    """as _rel_edges_direct, plus conditions materialised into a bool local: `let ok = a == x && b == y; if !ok { return }`. The true edge of a
+    test on such a local implies the relation if every way the local can be true does (the alternative is the comparison itself, or it is
+    assigned in a block that is already behind an edge with the relation); symmetrically for the false edge and `||`."""
+    direct = list(_rel_edges_direct(t, fn, lhs_pred, rhs_pred, rel))
+    for e, br in direct: yield e, br
+    dedges = [e for e, _ in direct]
+    def alt_holds(alt, bb, want_true):
+        a = alt; neg = False
+        while isinstance(a, tuple) and a[0] == "un" and a[1] == "Not": neg = not neg; a = a[2]
+        c = t.norm_cond(a)
+        if c[0] == "cmp":
+            _, op, x, y = c
+            if neg: op = NEGATE[op]
+            if not want_true: op = NEGATE[op]
+            for (p_, q_, o) in ((x, y, op), (y, x, MIRROR[op])):
+                if lhs_pred(p_) and rhs_pred(q_) and o == rel: return True
+        return any(t.edge_dominates(fn, e, bb) for e in dedges)
+    for br in t.branches(fn):
+        if br["kind"] != "bool": continue
+        raw = br["raw"]
+        if not (isinstance(raw, tuple) and raw[0] == "phi"): continue
+        defs = fn.defs().get(raw[1], [])
+        if len(defs) < 2: continue
+        alts = [(fn._origin_of_def(d, 0), bb_d) for bb_d, _, d in defs]
+        for want_true, edge in ((True, br["t_edge"]), (False, br["f_edge"])):
+            poss = [(a, b_) for a, b_ in alts if not (isinstance(a, tuple) and a[0] == "const" and bool(a[1]) != want_true)]
+            if poss and all(alt_holds(a, b_, want_true) for a, b_ in poss) and edge not in dedges: yield edge, br
+
+def map_key_edges(t, fn, field, key_pred):
+    """edges of fn that decide whether a key is present in the map/set `field`:
+    returns (absent_edges, present_edges). Recognised forms: contains_key / contains (bool), get / get_mut / remove result matched on Some/None,
+    `entry(k)` matched on Vacant/Occupied, `insert(k, ..)` of a set returning bool is not a test."""
+    absent, present = [], []
+    for br in t.branches(fn):
+        if br["kind"] == "bool" and br["cond"][0] == "call" and method_of(br["cond"][1]) in ("contains_key", "contains") and len(br["cond"][2]) >= 2:
+            if t.rooted_at_field(br["cond"][2][0], field) and key_pred(br["cond"][2][1]):
+                present.append(br["t_edge"]); absent.append(br["f_edge"])
+        if br["kind"] == "discr":
+            on = strip(br["on"])
+            if isinstance(on, tuple) and on[0] == "call" and on[2] and t.rooted_at_field(on[2][0], field) and len(on[2]) >= 2 and key_pred(on[2][1]):
+                m = method_of(on[1])
+                if m in ("get", "get_mut", "remove", "get_key_value"):
+                    for v, tgt in br["targets"].items(): (present if v == 1 else absent).append((br["bb"], tgt))
+                    if 1 not in br["targets"]: present.append((br["bb"], br["otherwise"]))
+                    if 0 not in br["targets"]: absent.append((br["bb"], br["otherwise"]))
+                elif m == "entry":
+                    # std Entry: Occupied = 0, Vacant = 1 (HashMap and BTreeMap)
+                    names = {0: "Occupied", 1: "Vacant"}
+                    for v, tgt in br["targets"].items(): (absent if names.get(v) == "Vacant" else present).append((br["bb"], tgt))
+                    if 1 not in br["targets"]: absent.append((br["bb"], br["otherwise"]))
+                    if 0 not in br["targets"]: present.append((br["bb"], br["otherwise"]))
+    return absent, present
+
+
+def owner_fn(t, fn):
+    """the function a closure body belongs to (the function that creates the closure, after helper inlining); fn itself for ordinary functions"""
+    seen = 0
+    while "{closure" in fn.path and seen < 6:
+        cs = t.closure_creator(fn)
+        if cs is None: break
+        fn = cs.fn; seen += 1
+    return fn
+
+
+def fn_and_closures(t, f):
+    """f and the closure bodies created inside it (transitively)"""
+    out = [f]
+    for g in t.fns():
+        if "{closure" in g.path and g.path.startswith(f.path + "::") : out.append(g)
+        elif "{closure" in g.path and owner_fn(t, g) is f and g not in out: out.append(g)
+    return out
+
+
+def resolved(t, o, g):
+    """origin o seen from the function that created closure g (captured variables replaced by what was captured)"""
+    return t.resolve_closure(o, g) if "{closure" in g.path else o
